@@ -12,7 +12,7 @@ from vf.model.rnd import urandoms
 
 PID = "C16"
 LEVEL = "exploration"
-BUDGET = {"quick": 1600, "thorough": 80000}
+BUDGET = {"quick": 3200, "thorough": 80000}
 SHARDS = 16
 MODELS = ["Huawei CE6870", "Huawei NE40E", "Huawei S6720", "Cisco Catalyst 2960", "Cisco Nexus 3132", "Cisco ASR 9000", "Arista DCS-7050",
           "Aruba AP-325", "B4com CS4100", "Juniper MX960", "Nokia 7750", "RouterOS CCR1036", "H3C S6850", "PC"]
